@@ -100,6 +100,8 @@ func fieldName(fa *ssa.FieldAddr) string {
 func runC09(c *core.Ctx, r *core.Reporter) {
 	c09idx(c, r)
 	c09rel(c, r)
+	c09sub(c, r)
+	c09strk(c, r)
 	c09fmt(c, r)
 	c09div(c, r)
 	c09assert(c, r)
@@ -108,6 +110,9 @@ func runC09(c *core.Ctx, r *core.Reporter) {
 	c09bounds(c, r)
 	c09kconst(c, r)
 	c09alloc(c, r)
+	c09nilrecv(c, r)
+	c09nilret(c, r)
+	c09errnil(c, r)
 }
 
 // derivesFromLispInt: v is computed (conversions, +/- constants) from a slip.Fixnum value or an Int64() result.
@@ -368,6 +373,42 @@ func nonNilByFacts(v ssa.Value, facts map[core.EdgeFact]bool) bool {
 		return ok && k.Value == nil
 	}
 	for f := range facts {
+		// slip.IsNil(v) false, or !slip.IsNil(v) true
+		{
+			cond, outcome := f.If.Cond, f.Branch
+			for {
+				u, ok := cond.(*ssa.UnOp)
+				if !ok || u.Op != token.NOT {
+					break
+				}
+				cond, outcome = u.X, !outcome
+			}
+			if call, ok := cond.(*ssa.Call); ok && !outcome {
+				if cal := call.Call.StaticCallee(); cal != nil && cal.Name() == "IsNil" && len(call.Call.Args) == 1 {
+					a := call.Call.Args[0]
+					for i := 0; i < 3; i++ {
+						switch x := a.(type) {
+						case *ssa.MakeInterface:
+							a = x.X
+							continue
+						case *ssa.ChangeInterface:
+							a = x.X
+							continue
+						}
+						break
+					}
+					if a == v {
+						return true
+					}
+				}
+			}
+		}
+		// a successful comma-ok type assertion of v (a type switch arm): v holds a value of that type
+		if ex, ok := f.If.Cond.(*ssa.Extract); ok && ex.Index == 1 && f.Branch {
+			if ta, ok := ex.Tuple.(*ssa.TypeAssert); ok && ta.CommaOk && ta.X == v {
+				return true
+			}
+		}
 		bo, ok := f.If.Cond.(*ssa.BinOp)
 		if !ok {
 			continue
